@@ -108,6 +108,8 @@ def net_part(ck, tier, rng):
         terms.append(term)
         groups.append((ref, delayed))
     bad = run_shards(PID + "_net", sprops.HEADER, "sched_case", "check_sched", terms, shard_size=4)
+    # on how many of them the schedule-explicit model Model/NSim.v (two answer strategies) was compared with Model/Sim.v
+    nsim_scope = run_shards(PID + "_nsim", sprops.HEADER, "sched_case", "nsim_scope", terms, shard_size=8)
     deliveries = choices = 0
     pol = {}
     for case, (ref, delayed) in zip(cases, groups):
@@ -119,7 +121,8 @@ def net_part(ck, tier, rng):
                      (d["bus"] or {}).get("choices", 0) >= 5)
     ck.coverage.update(net_simulations=len(cases), net_delayed_runs=sum(len(c["schedules"]) for c in cases), net_policies=pol,
                        net_deliveries=deliveries, net_scheduling_choices=choices, net_simultaneous_stimuli=nsim,
-                       net_nested=sum(1 for c in cases if len(c["cfg"]) > 1), net_disagreements=len(bad))
+                       net_nested=sum(1 for c in cases if len(c["cfg"]) > 1), net_disagreements=len(bad),
+                       net_flat_cases_compared_with_schedule_explicit_model=len(nsim_scope))
     reported = False
     # a participant that raises or a simulation that stalls under some schedule only
     for i, (case, (ref, delayed)) in enumerate(zip(cases, groups)):
@@ -157,7 +160,8 @@ def net_part(ck, tier, rng):
 def main(tier, seed):
     return tprops.main_T(PID, tier, seed, {21}, "Props.C08",
                          ["Model/Ticker.v", "Oracle/TickerOracle.v", "Model/Sim.v", "Oracle/SimCheck.v", "Oracle/SimOracle.v",
-                          "Proofs/TickerP.v", "Props/C08.v"],
+                          "Proofs/TickerP.v", "Model/NSim.v", "Proofs/LatestP.v", "Proofs/EqvP.v", "Proofs/InlineP.v", "Proofs/InlineLoopP.v",
+                          "Proofs/InlineScopeP.v", "Proofs/Confluence2P.v", "Proofs/ScheduleP.v", "Props/C08.v"],
                          "schedule independence", extra=net_part)
 
 
